@@ -50,7 +50,13 @@ const kfKey = "overlap-penalty-gap"
 // ---------------------------------------------------------------------------------------------
 // world
 
-type chunkSpec struct{ lo, hi, st int } // positions lo..hi (1-based) of the replica's samples, store
+// positions lo..hi (1-based) of the replica's samples, store; ds: the store also holds this chunk
+// downsampled (aggregates per window of world.res grid points) and serves that form when the
+// request's max resolution window allows it.
+type chunkSpec struct {
+	lo, hi, st int
+	ds         bool
+}
 
 type repSpec struct {
 	g, id  int
@@ -75,18 +81,81 @@ type replica struct {
 type world struct {
 	step  int64
 	shape string
+	res   int // grid points per downsampling window (0 = no downsampled data in this world)
 	reps  []replica
 }
 
+func (w world) resMs() int64 { return int64(w.res) * w.step }
+
+func optInt(v any) int {
+	if v == nil {
+		return 0
+	}
+	return vt.Int(v)
+}
+
+// aggrKinds in the order of storepb.Aggr; "avg" is what the default COUNT+SUM selection yields.
+var aggrKinds = []string{"count", "sum", "min", "max", "counter", "avg"}
+
+// aggForm: the downsampled form of a chunk: one sample per window (timestamp = end of the window on
+// the replica's grid) and per aggregate.  Values are multiples of 60 in such worlds, so avg is integral
+// for windows of <= 6 points.
+func aggForm(w world, r *replica, c chunkSpec) map[string][]sample {
+	out := map[string][]sample{}
+	for _, k := range aggrKinds {
+		out[k] = []sample{}
+	}
+	if !c.ds || w.res == 0 {
+		return out
+	}
+	type acc struct {
+		t                        int64
+		cnt, sum, min, max, last int64
+	}
+	var ws []acc
+	for p := c.lo; p <= c.hi; p++ {
+		idx := r.spec.pts[p-1]
+		win := int64((idx + w.res - 1) / w.res)
+		t := win*int64(w.res)*w.step + r.spec.off
+		v := r.samples[p-1].v
+		if len(ws) == 0 || ws[len(ws)-1].t != t {
+			ws = append(ws, acc{t: t, min: v, max: v})
+		}
+		a := &ws[len(ws)-1]
+		a.cnt++
+		a.sum += v
+		if v < a.min {
+			a.min = v
+		}
+		if v > a.max {
+			a.max = v
+		}
+		a.last = v
+	}
+	for _, a := range ws {
+		out["count"] = append(out["count"], sample{a.t, a.cnt})
+		out["sum"] = append(out["sum"], sample{a.t, a.sum})
+		out["min"] = append(out["min"], sample{a.t, a.min})
+		out["max"] = append(out["max"], sample{a.t, a.max})
+		out["counter"] = append(out["counter"], sample{a.t, a.last})
+		out["avg"] = append(out["avg"], sample{a.t, a.sum / a.cnt})
+	}
+	return out
+}
+
 func parseWorld(c vt.Case) world {
-	w := world{step: vt.Int64(c["step"]), shape: vt.Str(c["shape"])}
+	w := world{step: vt.Int64(c["step"]), shape: vt.Str(c["shape"]), res: optInt(c["res"])}
+	vm := int64(1)
+	if w.res > 0 {
+		vm = 60
+	}
 	for _, x := range vt.List(c["reps"]) {
 		m := vt.Map(x)
 		r := repSpec{g: vt.Int(m["g"]), id: vt.Int(m["id"]), rl: vt.Str(m["rl"]), off: vt.Int64(m["off"]),
 			own: vt.Bool(m["own"]), pts: vt.Ints(m["pts"])}
 		for _, y := range vt.List(m["chunks"]) {
 			cm := vt.Map(y)
-			r.chunks = append(r.chunks, chunkSpec{vt.Int(cm["lo"]), vt.Int(cm["hi"]), vt.Int(cm["st"])})
+			r.chunks = append(r.chunks, chunkSpec{vt.Int(cm["lo"]), vt.Int(cm["hi"]), vt.Int(cm["st"]), vt.Bool(cm["ds"])})
 		}
 		b := labels.NewBuilder(labels.EmptyLabels())
 		b.Set("__name__", "m")
@@ -110,7 +179,7 @@ func parseWorld(c vt.Case) world {
 			if r.own {
 				v = int64(1000*r.id + p)
 			}
-			rep.samples = append(rep.samples, sample{t: int64(p)*w.step + r.off, v: v})
+			rep.samples = append(rep.samples, sample{t: int64(p)*w.step + r.off, v: v * vm})
 		}
 		w.reps = append(w.reps, rep)
 	}
@@ -134,10 +203,15 @@ func pairs(ss []sample) [][]int64 {
 // worldEvent is the concrete world the trace spec judges against (built from the case alone).
 func worldEvent(w world) []any {
 	out := []any{}
-	for _, r := range w.reps {
+	for i := range w.reps {
+		r := &w.reps[i]
 		chs := []any{}
 		for _, c := range r.spec.chunks {
-			chs = append(chs, map[string]any{"lo": c.lo, "hi": c.hi, "st": c.st})
+			agg := map[string]any{}
+			for k, v := range aggForm(w, r, c) {
+				agg[k] = pairs(v)
+			}
+			chs = append(chs, map[string]any{"lo": c.lo, "hi": c.hi, "st": c.st, "ds": c.ds && w.res > 0, "agg": agg})
 		}
 		out = append(out, map[string]any{"lbls": lblMap(r.lbls), "id": 10*r.spec.g + r.spec.id,
 			"samples": pairs(r.samples), "chunks": chs})
@@ -167,6 +241,10 @@ type config struct {
 	maxres int64    // querier's max source resolution in ms
 	spc    int      // TSDB mode: samples per head chunk (0 = default 120)
 	tframe int      // TSDB mode: TSDBStore frame byte budget (0 = default 1 MiB)
+	skip   bool     // querier created with skipChunks (series metadata call)
+	mid    bool     // the down store fails mid-stream (after half of its frames) instead of at open
+	allagg bool     // fake stores put every aggregate into a downsampled chunk, not only the requested ones
+	lv     string   // label name asked with LabelValues
 }
 
 func parseConfig(c vt.Case) config {
@@ -175,7 +253,11 @@ func parseConfig(c vt.Case) config {
 		pr: vt.Bool(m["pr"]), retr: vt.Str(m["retr"]), frame: vt.Int(m["frame"]), batch: vt.Int(m["batch"]),
 		tsdb: vt.Bool(m["tsdb"]), fail: vt.Str(m["fail"]), tight: vt.Bool(m["tight"]),
 		sel: vt.Int(m["sel"]), down: vt.Int(m["down"]), fn: vt.Str(m["fn"]), rng: vt.Int64(m["rng"]), maxres: vt.Int64(m["maxres"]),
-		spc: vt.Int(m["spc"]), tframe: vt.Int(m["tframe"])}
+		spc: vt.Int(m["spc"]), tframe: vt.Int(m["tframe"]),
+		skip: vt.Bool(m["skip"]), mid: vt.Bool(m["mid"]), allagg: vt.Bool(m["allagg"]), lv: vt.Str(m["lv"])}
+	if cfg.lv == "" {
+		cfg.lv = "replica"
+	}
 	for _, b := range vt.List(m["strip"]) {
 		cfg.strip = append(cfg.strip, vt.Bool(b))
 	}
@@ -186,7 +268,7 @@ func (c config) toMap() map[string]any {
 	return map[string]any{"dedup": c.dedup, "rls": c.rls, "strip": c.strip, "lo": c.lo, "hi": c.hi, "pr": c.pr,
 		"retr": c.retr, "frame": c.frame, "batch": c.batch, "tsdb": c.tsdb, "fail": c.fail, "tight": c.tight,
 		"sel": c.sel, "down": c.down, "fn": c.fn, "rng": c.rng, "maxres": c.maxres,
-		"spc": c.spc, "tframe": c.tframe}
+		"spc": c.spc, "tframe": c.tframe, "skip": c.skip, "mid": c.mid, "allagg": c.allagg, "lv": c.lv}
 }
 
 // inScope: the store takes part in the query and answers (ReadPath!Scoped).
@@ -219,12 +301,13 @@ type seriesReq struct {
 type fakeStore struct {
 	storepb.StoreClient // LabelNames / LabelValues are not used
 
-	name  string
-	w     *world
-	st    int // store number; serves the chunks placed on it
-	strip bool
-	frame int
-	fail  string
+	name   string
+	w      *world
+	st     int // store number; serves the chunks placed on it
+	strip  bool
+	frame  int
+	fail   string // "" | "open" | "recv" (after all frames) | "mid" (after half of the frames)
+	allagg bool
 
 	mu   sync.Mutex
 	reqs []seriesReq
@@ -243,24 +326,72 @@ func xorChunk(ss []sample) *storepb.AggrChunk {
 		Raw: &storepb.Chunk{Type: storepb.Chunk_XOR, Data: c.Bytes()}}
 }
 
-func (f *fakeStore) Series(ctx context.Context, req *storepb.SeriesRequest, _ ...grpc.CallOption) (storepb.Store_SeriesClient, error) {
-	f.mu.Lock()
-	f.reqs = append(f.reqs, seriesReq{mint: req.MinTime, maxt: req.MaxTime, without: append([]string{}, req.WithoutReplicaLabels...),
-		matchers: len(req.Matchers), pr: req.PartialResponseStrategy.String(), maxRes: req.MaxResolutionWindow, aggrs: len(req.Aggregates)})
-	f.mu.Unlock()
-	if f.fail == "open" {
-		return nil, errors.New("verif: store unavailable")
+func xorOf(ss []sample, dupLast bool) *storepb.Chunk {
+	c := chunkenc.NewXORChunk()
+	app, err := c.Appender()
+	if err != nil {
+		panic(err)
 	}
-	ms, err := storepb.MatchersToPromMatchers(req.Matchers...)
+	for _, s := range ss {
+		app.Append(baseT+s.t, float64(s.v))
+	}
+	if dupLast && len(ss) > 0 { // counter aggregate: the true last value is repeated at the same timestamp
+		l := ss[len(ss)-1]
+		app.Append(baseT+l.t, float64(l.v))
+	}
+	return &storepb.Chunk{Type: storepb.Chunk_XOR, Data: c.Bytes()}
+}
+
+// chunkFor: the chunk as this store serves it for the request: downsampled (the requested aggregates)
+// when the store holds that form and the request's max resolution window allows it, else raw.
+func (f *fakeStore) chunkFor(r *replica, c chunkSpec, req *storepb.SeriesRequest) *storepb.AggrChunk {
+	if !(c.ds && f.w.res > 0 && req.MaxResolutionWindow >= f.w.resMs()) {
+		return xorChunk(r.samples[c.lo-1 : c.hi])
+	}
+	a := aggForm(*f.w, r, c)
+	want := map[storepb.Aggr]bool{}
+	for _, x := range req.Aggregates {
+		want[x] = true
+	}
+	if f.allagg || len(req.Aggregates) == 0 {
+		for _, x := range []storepb.Aggr{storepb.Aggr_COUNT, storepb.Aggr_SUM, storepb.Aggr_MIN, storepb.Aggr_MAX, storepb.Aggr_COUNTER} {
+			want[x] = true
+		}
+	}
+	ch := &storepb.AggrChunk{MinTime: baseT + a["count"][0].t, MaxTime: baseT + a["count"][len(a["count"])-1].t}
+	if want[storepb.Aggr_COUNT] {
+		ch.Count = xorOf(a["count"], false)
+	}
+	if want[storepb.Aggr_SUM] {
+		ch.Sum = xorOf(a["sum"], false)
+	}
+	if want[storepb.Aggr_MIN] {
+		ch.Min = xorOf(a["min"], false)
+	}
+	if want[storepb.Aggr_MAX] {
+		ch.Max = xorOf(a["max"], false)
+	}
+	if want[storepb.Aggr_COUNTER] {
+		ch.Counter = xorOf(a["counter"], true)
+	}
+	return ch
+}
+
+type fakeSeries struct {
+	l   labels.Labels // as returned (replica labels stripped when asked and supported)
+	rep *replica
+	chs []storepb.AggrChunk
+}
+
+// matching: the series of this store that match the matchers and have a chunk overlapping [mint, maxt].
+func (f *fakeStore) matching(pbms []storepb.LabelMatcher, mint, maxt int64, without []string, strip bool, req *storepb.SeriesRequest) ([]fakeSeries, error) {
+	ms, err := storepb.MatchersToPromMatchers(pbms...)
 	if err != nil {
 		return nil, err
 	}
-	type ser struct {
-		l   labels.Labels
-		chs []storepb.AggrChunk
-	}
-	var sers []ser
-	for _, r := range f.w.reps {
+	var sers []fakeSeries
+	for i := range f.w.reps {
+		r := &f.w.reps[i]
 		matches := true
 		for _, m := range ms {
 			if !m.Matches(r.lbls.Get(m.Name)) {
@@ -275,8 +406,18 @@ func (f *fakeStore) Series(ctx context.Context, req *storepb.SeriesRequest, _ ..
 			if c.st != f.st {
 				continue
 			}
-			ch := xorChunk(r.samples[c.lo-1 : c.hi])
-			if ch.MaxTime < req.MinTime || ch.MinTime > req.MaxTime {
+			var ch *storepb.AggrChunk
+			if req != nil {
+				ch = f.chunkFor(r, c, req)
+			} else {
+				// label calls: the series is known to the store from the start of the raw chunk to the end
+				// of its last downsampling window
+				ch = &storepb.AggrChunk{MinTime: baseT + r.samples[c.lo-1].t, MaxTime: baseT + r.samples[c.hi-1].t}
+				if a := aggForm(*f.w, r, c)["count"]; len(a) > 0 && baseT+a[len(a)-1].t > ch.MaxTime {
+					ch.MaxTime = baseT + a[len(a)-1].t
+				}
+			}
+			if ch.MaxTime < mint || ch.MinTime > maxt {
 				continue // a store returns the chunks overlapping the requested range
 			}
 			chs = append(chs, *ch)
@@ -286,18 +427,37 @@ func (f *fakeStore) Series(ctx context.Context, req *storepb.SeriesRequest, _ ..
 		}
 		sort.SliceStable(chs, func(i, j int) bool { return chs[i].MinTime < chs[j].MinTime })
 		l := r.lbls
-		if f.strip && len(req.WithoutReplicaLabels) > 0 {
+		if strip && len(without) > 0 {
 			b := labels.NewBuilder(l)
-			for _, n := range req.WithoutReplicaLabels {
+			for _, n := range without {
 				b.Del(n)
 			}
 			l = b.Labels()
 		}
-		sers = append(sers, ser{l, chs})
+		sers = append(sers, fakeSeries{l, r, chs})
 	}
 	sort.SliceStable(sers, func(i, j int) bool { return labels.Compare(sers[i].l, sers[j].l) < 0 })
+	return sers, nil
+}
+
+func (f *fakeStore) Series(ctx context.Context, req *storepb.SeriesRequest, _ ...grpc.CallOption) (storepb.Store_SeriesClient, error) {
+	f.mu.Lock()
+	f.reqs = append(f.reqs, seriesReq{mint: req.MinTime, maxt: req.MaxTime, without: append([]string{}, req.WithoutReplicaLabels...),
+		matchers: len(req.Matchers), pr: req.PartialResponseStrategy.String(), maxRes: req.MaxResolutionWindow, aggrs: len(req.Aggregates)})
+	f.mu.Unlock()
+	if f.fail == "open" {
+		return nil, errors.New("verif: store unavailable")
+	}
+	sers, err := f.matching(req.Matchers, req.MinTime, req.MaxTime, req.WithoutReplicaLabels, f.strip, req)
+	if err != nil {
+		return nil, err
+	}
 	var resps []*storepb.SeriesResponse
 	for _, s := range sers {
+		if req.SkipChunks {
+			resps = append(resps, storepb.NewSeriesResponse(&storepb.Series{Labels: labelpb.ZLabelsFromPromLabels(s.l)}))
+			continue
+		}
 		n := f.frame
 		if n <= 0 {
 			n = len(s.chs)
@@ -312,11 +472,60 @@ func (f *fakeStore) Series(ctx context.Context, req *storepb.SeriesRequest, _ ..
 		}
 	}
 	cl := &storetestutil.StoreSeriesClient{Ctx: ctx, RespSet: resps}
-	if f.fail == "recv" {
+	switch f.fail {
+	case "recv":
 		cl.InjectedError = errors.New("verif: stream broke")
 		cl.InjectedErrorIndex = len(resps) // fails after everything it had was sent (index 0 = first Recv)
+	case "mid":
+		cl.InjectedError = errors.New("verif: stream broke mid-way")
+		cl.RespSet = resps[:(len(resps)+1)/2]
+		cl.InjectedErrorIndex = len(cl.RespSet) // half of the frames arrive, then the stream fails
 	}
 	return cl, nil
+}
+
+// LabelNames / LabelValues of the fake store honour the StoreAPI contract: time range, matchers, and
+// without_replica_labels ("replica labels which have to be excluded").
+func (f *fakeStore) LabelNames(ctx context.Context, req *storepb.LabelNamesRequest, _ ...grpc.CallOption) (*storepb.LabelNamesResponse, error) {
+	if f.fail != "" {
+		return nil, errors.New("verif: store unavailable")
+	}
+	sers, err := f.matching(req.Matchers, req.Start, req.End, req.WithoutReplicaLabels, true, nil)
+	if err != nil {
+		return nil, err
+	}
+	set := map[string]bool{}
+	for _, s := range sers {
+		s.l.Range(func(l labels.Label) { set[l.Name] = true })
+	}
+	out := []string{}
+	for n := range set {
+		out = append(out, n)
+	}
+	sort.Strings(out)
+	return &storepb.LabelNamesResponse{Names: out}, nil
+}
+
+func (f *fakeStore) LabelValues(ctx context.Context, req *storepb.LabelValuesRequest, _ ...grpc.CallOption) (*storepb.LabelValuesResponse, error) {
+	if f.fail != "" {
+		return nil, errors.New("verif: store unavailable")
+	}
+	sers, err := f.matching(req.Matchers, req.Start, req.End, req.WithoutReplicaLabels, true, nil)
+	if err != nil {
+		return nil, err
+	}
+	set := map[string]bool{}
+	for _, s := range sers {
+		if v := s.l.Get(req.Label); v != "" {
+			set[v] = true
+		}
+	}
+	out := []string{}
+	for n := range set {
+		out = append(out, n)
+	}
+	sort.Strings(out)
+	return &storepb.LabelValuesResponse{Values: out}, nil
 }
 
 // ---------------------------------------------------------------------------------------------
@@ -335,6 +544,10 @@ type runResult struct {
 	queried []any
 	// TSDB mode: largest number of frames one series was streamed in by a real TSDBStore
 	maxFrames int
+	// metadata calls
+	lnames, lvals []string
+	lerr          string
+	lwarns        int
 }
 
 func nstores(w world) int {
@@ -398,9 +611,12 @@ func runCase(t *testing.T, w world, cfg config) (res runResult) {
 			if st-1 < len(cfg.strip) {
 				strip = cfg.strip[st-1]
 			}
-			f := &fakeStore{name: fmt.Sprintf("store-%d", st), w: &w, st: st, strip: strip, frame: cfg.frame}
+			f := &fakeStore{name: fmt.Sprintf("store-%d", st), w: &w, st: st, strip: strip, frame: cfg.frame, allagg: cfg.allagg}
 			if cfg.down == st {
 				f.fail = "open"
+				if cfg.mid {
+					f.fail = "mid"
+				}
 			}
 			fakes = append(fakes, f)
 			mint, maxt := int64(math.MinInt64), int64(math.MaxInt64)
@@ -433,20 +649,21 @@ func runCase(t *testing.T, w world, cfg config) (res runResult) {
 	if cfg.fn != "" {
 		hints = &storage.SelectHints{Start: baseT + cfg.lo, End: baseT + cfg.hi, Func: cfg.fn, Range: cfg.rng}
 	}
-	q, err := qc(cfg.dedup, cfg.rls, storeMatchers, cfg.maxres, cfg.pr, false, nil, query.NoopSeriesStatsReporter).Querier(baseT+cfg.lo, baseT+cfg.hi)
+	q, err := qc(cfg.dedup, cfg.rls, storeMatchers, cfg.maxres, cfg.pr, cfg.skip, nil, query.NoopSeriesStatsReporter).Querier(baseT+cfg.lo, baseT+cfg.hi)
 	if err != nil {
 		res.err = "querier: " + err.Error()
 		return res
 	}
 	defer q.Close()
-	ss := q.Select(context.Background(), false, hints, labels.MustNewMatcher(labels.MatchEqual, "__name__", "m"))
+	nameM := labels.MustNewMatcher(labels.MatchEqual, "__name__", "m")
+	ss := q.Select(context.Background(), false, hints, nameM)
 	res.series = []any{}
 	for ss.Next() {
 		s := ss.At()
 		o := map[string]any{"lbls": lblMap(s.Labels())}
 		sm := [][]int64{}
 		it := s.Iterator(nil)
-		for it.Next() != chunkenc.ValNone {
+		for !cfg.skip && it.Next() != chunkenc.ValNone { // a series metadata call reads label sets only
 			ts, v := it.At()
 			sm = append(sm, []int64{ts - baseT, int64(v)})
 			if len(sm) > 100000 {
@@ -454,7 +671,7 @@ func runCase(t *testing.T, w world, cfg config) (res runResult) {
 				return res
 			}
 		}
-		if it.Err() != nil {
+		if !cfg.skip && it.Err() != nil {
 			res.err = "iterator: " + it.Err().Error()
 		}
 		o["samples"] = sm
@@ -467,6 +684,22 @@ func runCase(t *testing.T, w world, cfg config) (res runResult) {
 		t.Fatalf("timing problem, not an observation: %s", res.err) // exit 2, never a verdict
 	}
 	res.warns = len(ss.Warnings())
+	// metadata calls of the same querier
+	res.lnames, res.lvals = []string{}, []string{}
+	names, w1, err1 := q.LabelNames(context.Background(), nil, nameM)
+	vals, w2, err2 := q.LabelValues(context.Background(), cfg.lv, nil, nameM)
+	switch {
+	case err1 != nil:
+		res.lerr = "LabelNames: " + err1.Error()
+	case err2 != nil:
+		res.lerr = "LabelValues: " + err2.Error()
+	default:
+		res.lnames, res.lvals = append(res.lnames, names...), append(res.lvals, vals...)
+		res.lwarns = len(w1) + len(w2)
+	}
+	if strings.Contains(res.lerr, "deadline") {
+		t.Fatalf("timing problem, not an observation: %s", res.lerr)
+	}
 	for _, fc := range counters {
 		fc.mu.Lock()
 		if fc.maxFrames > res.maxFrames {
@@ -606,7 +839,9 @@ func stripLbls(l labels.Labels, rl map[string]bool) string {
 
 func inKFClass(w world, cfg config) bool {
 	rl := cfg.effectiveRL()
-	if len(rl) == 0 || cfg.tsdb {
+	if len(rl) == 0 || cfg.tsdb || w.res > 0 || cfg.skip {
+		// worlds with downsampled data are built without overlapping chunks inside a replica: the first
+		// chain is always complete there (ReadPathMC), whatever form the stores serve
 		return false
 	}
 	type chunk struct {
@@ -848,11 +1083,95 @@ func randomWorld(rnd *rand.Rand, maxSamples int, forTSDB bool) vt.Case {
 	return vt.Case{"step": step, "shape": shape, "reps": reps}
 }
 
+// dsWorld (phase 2): worlds whose stores also hold downsampled data.  Windows of `res` grid points; chunk
+// cuts are aligned to windows and never overlap inside a replica; per logical series the windows up to a
+// boundary are held downsampled ("old" data), the rest raw - replicas of a series share the boundary
+// (so identical replicas stay identical in what the stores serve) unless they deviate on purpose.
+func dsWorld(rnd *rand.Rand) vt.Case {
+	step := []int64{1000, 15000, 30000}[rnd.Intn(3)]
+	res := []int{2, 3, 5}[rnd.Intn(3)]
+	shape := []string{"a", "z"}[rnd.Intn(2)]
+	nst := 1 + rnd.Intn(3)
+	reps := []any{}
+	for g, ng := 1, 1+rnd.Intn(2); g <= ng; g++ {
+		nwin := 2 + rnd.Intn(7)
+		ident := rnd.Intn(3) > 0
+		bound := rnd.Intn(nwin + 1) // windows 1..bound are downsampled
+		if rnd.Intn(4) == 0 {
+			bound = nwin
+		}
+		for id, nrep := 1, 1+rnd.Intn(3); id <= nrep; id++ {
+			var pts []int
+			off := int64(0)
+			for p := 1; p <= nwin*res; p++ {
+				if !ident && rnd.Intn(5) == 0 {
+					continue
+				}
+				pts = append(pts, p)
+			}
+			if len(pts) == 0 {
+				pts = []int{1}
+			}
+			if !ident {
+				off = int64(rnd.Intn(3)) * step / 10
+			}
+			b := bound
+			if rnd.Intn(6) == 0 {
+				b = rnd.Intn(nwin + 1) // this replica's store downsampled a different stretch
+			}
+			// window-aligned cut boundaries (after window k), b always among them
+			cutAfter := map[int]bool{b: true, nwin: true}
+			for k := 1; k < nwin; k++ {
+				if rnd.Intn(3) == 0 {
+					cutAfter[k] = true
+				}
+			}
+			chunks := []any{}
+			lo := 1
+			for pos := 1; pos <= len(pts); pos++ {
+				win := (pts[pos-1] + res - 1) / res
+				last := pos == len(pts) || (pts[pos]+res-1)/res != win
+				if last && (cutAfter[win] || pos == len(pts)) {
+					chunks = append(chunks, map[string]any{"lo": lo, "hi": pos, "st": 1 + rnd.Intn(nst), "ds": win <= b})
+					lo = pos + 1
+				}
+			}
+			reps = append(reps, map[string]any{"g": g, "id": id, "rl": []string{"r", "r", "s", "rs"}[rnd.Intn(4)], "off": off,
+				"own": !ident, "pts": pts, "chunks": chunks})
+		}
+	}
+	return vt.Case{"step": step, "shape": shape, "res": res, "reps": reps}
+}
+
+var p2Funcs = []string{"min_over_time", "max_over_time", "count_over_time", "sum_over_time", "rate", "increase", "avg_over_time", "", "delta"}
+
+// p2Config (phase 2): aggregate-selecting functions, max source resolution around the window size,
+// stores returning all / only the requested aggregates.
+func p2Config(rnd *rand.Rand, w world, dedupOn bool) config {
+	cfg := randomConfig(rnd, w, dedupOn)
+	cfg.fn = p2Funcs[rnd.Intn(len(p2Funcs))]
+	rm := w.resMs()
+	if rm == 0 {
+		rm = 300_000
+	}
+	cfg.maxres = []int64{0, rm, rm, 10 * rm}[rnd.Intn(4)]
+	cfg.rng = []int64{0, 4 * rm, 4 * rm, rm}[rnd.Intn(4)]
+	cfg.allagg = rnd.Intn(2) == 0
+	return cfg
+}
+
 func TestC04(t *testing.T) {
 	rnd := vt.Rand()
 	gen := func(yield func(vt.Case)) {
+		nemit := 0
 		emit := func(wc vt.Case, cfg config) {
 			w := parseWorld(vt.Normalize(wc))
+			// label asked with LabelValues: cycles through the distinguishing label, the replica labels, __name__
+			nemit++
+			cfg.lv = []string{"job", "replica", "rule_replica", "__name__"}[nemit%4]
+			if cfg.lv == "job" && w.shape == "z" {
+				cfg.lv = "zone"
+			}
 			if inKFClass(w, cfg) {
 				yield(withCfg(wc, cfg, "rest"))
 				yield(withCfg(wc, cfg, "kf"))
@@ -888,6 +1207,31 @@ func TestC04(t *testing.T) {
 			}
 			emit(wc, cfg)
 		}
+		// ---- phase 2 ----
+		// downsampled data through the read path (aggregated chunks, auto-downsampling, mixed raw + downsampled)
+		for i, n := 0, vt.Pick(250, 2500); i < n; i++ {
+			wc := dsWorld(rnd)
+			w := parseWorld(vt.Normalize(wc))
+			emit(wc, p2Config(rnd, w, true))
+			emit(wc, p2Config(rnd, w, rnd.Intn(2) == 0))
+		}
+		// counter functions on raw data, series metadata calls (skipChunks), a data store failing mid-stream
+		for i, n := 0, vt.Pick(200, 2000); i < n; i++ {
+			wc := randomWorld(rnd, []int{6, 20, 40}[rnd.Intn(3)], false)
+			w := parseWorld(vt.Normalize(wc))
+			cfg := randomConfig(rnd, w, i%3 != 0)
+			switch i % 3 {
+			case 0:
+				cfg.fn, cfg.rng = []string{"rate", "increase"}[rnd.Intn(2)], 600_000
+			case 1:
+				cfg.skip = true
+			case 2:
+				if n := nstores(w); n >= 2 {
+					cfg.down, cfg.mid, cfg.sel, cfg.tight, cfg.pr = 1+rnd.Intn(n), true, 0, false, rnd.Intn(4) > 0
+				}
+			}
+			emit(wc, cfg)
+		}
 	}
 	kf := func(c vt.Case) string {
 		if vt.Str(c["part"]) == "kf" {
@@ -908,12 +1252,19 @@ func TestC04(t *testing.T) {
 		if res.queried == nil {
 			res.queried = []any{}
 		}
+		if res.lnames == nil {
+			res.lnames = []string{}
+		}
+		if res.lvals == nil {
+			res.lvals = []string{}
+		}
 		total := 0
 		for _, r := range w.reps {
 			total += len(r.samples)
 		}
 		return vt.Event{"world": worldEvent(w), "cfg": cfg.toMap(), "part": vt.Str(c["part"]),
-			"drift": !cfg.tsdb && total <= 60, "nstores": nstores(w), "maxframes": res.maxFrames,
+			"drift": !cfg.tsdb && total <= 60, "nstores": nstores(w), "maxframes": res.maxFrames, "resms": w.resMs(),
+			"lnames": res.lnames, "lvals": res.lvals, "lerr": res.lerr, "lwarns": res.lwarns,
 			"series": res.series, "err": res.err, "warns": res.warns, "reqs": res.reqs, "queried": res.queried}
 	})
 }
